@@ -53,6 +53,7 @@ impl Env {
             Op::GetHold { k, ms } => h.get_hold(k, ms),
             Op::GetYield { k } => h.get_yield(k),
             Op::GetMaxCost { k } => h.get_max_cost(k),
+            Op::MutHoldIns { k, n } => h.mut_hold_ins(k, n, Program::seq_of(th, idx)),
             Op::Clear => h.clear(),
             Op::Wait => h.wait(),
             Op::MaxCost { m } => {
